@@ -95,7 +95,7 @@ def model(p, gaps, knees, tx, ty, ext):
 @st.composite
 def cases(draw, tier):
     c = draw(S.curves(4, 40 if tier == 'quick' else 200,
-                      families=['noise', 'mono_dec', 'mono_dec', 'convex', 'concave', 'pwl_dyadic',
+                      families=['noise', 'mono_dec', 'mono_dec', 'ulp', 'convex', 'concave', 'pwl_dyadic',
                                 'pwl_rational', 'plateau', 'steps', 'trace', 'repo', 'outlier'],
                       big_n=160 if tier == 'quick' else 600))
     pts = c['pts']
